@@ -15,11 +15,15 @@ CPP = {1: ["#ifdef FOO"], 2: ["#ifndef FOO"], 3: ["#if defined(A) && B > 2"], 4:
        19: ["#endif /* FOO */"], 20: ["#else // not FOO"], 21: ["#  ifdef FOO"], 22: ["# define GUARD 1"], 23: ["#endif FOO"],
        24: ['#   include "decl.h"'], 25: ["#define EMPTY"], 26: ["#if 0"], 27: ["#elif defined(X) /* c */"],
        # a ';' inside the payload (quoted)
-       28: ['#define SEP ";"'], 29: ['#error "x; y"']}
+       28: ['#define SEP ";"'], 29: ['#error "x; y"'],
+       # a directive continued over three physical lines
+       30: ["#define TRI(a) \\", "   (a) + \\", "   2"]}
 AFTER_BREAK = "! after the break"
 GARB = {1: ["@@", "x", "y"], 2: ["1", "=", "=", "2"], 3: ["then", "end", "do"], 4: ["@@", "x", "y  ! a trailing comment"], 5: ["then", "end", "do ! it's"],
         # statements cut short: an assignment without its right-hand side, a call without a name
-        6: ["total", "(", "1 ) ="], 7: ["call", "(", "x )"]}
+        6: ["total", "(", "1 ) ="], 7: ["call", "(", "x )"],
+        # an unbalanced quote in the garbage
+        8: ["this", "isn't", "Fortran"]}
 
 
 def cpp_norm(text):
@@ -177,7 +181,7 @@ def layout(out, ed):
         elif i in sent:
             if sent[i] >= 1:
                 sp = split_first(s)
-                phys.append((i, "!$ " + ind + sp[0] + " &"))
+                phys.append((i, "!$ " + ind + sp[0] + " &" + ("  ! trailing note" if sent[i] == 6 else "")))
                 if sent[i] == 2:
                     phys.append((i, ind + "  ! comment between conditional lines"))
                 elif sent[i] == 3:
